@@ -12,12 +12,18 @@ Which LTS models which skeleton:
   deriveDupB, deriveDupR             K/Dup
   deriveJoinCC, deriveJoinCCb        K/JoinWG, chanForm = true   (`wait.Add 1` precedes the inner `go`; `if listening[c] { continue }`
                                      / `listening[c] = true` before it: one forwarder per distinct channel — `Cfg.seen`, `take`)
-  deriveJoinSC, deriveJoinSCb        K/JoinWG, chanForm = false
+  deriveJoinSC, deriveJoinSCb        K/JoinWG, chanForm = false (since F103 the CALLER reads the list: Add / go run before the
+                                     function returns, a last goroutine only waits and closes — same transitions, other goroutines)
   deriveJoinV2, V3, V5, V6           K/JoinSelect with n = 2, 3, 5, 6 (one select case per channel argument)
   derivePipelineP                    K/Pipeline   (= deriveJoinCC ∘ deriveFmap)
   deriveDo2, deriveDo3, deriveDo4    K/Do with n = 2, 3, 4
   deriveDo3b, deriveDo2b             K/Do with n = 3, 2 (second package: two Do calls, the larger arity first)
   deriveDo3m                         K/Do with n = 3, functions of three different result types
+  deriveJoinCCbb, deriveJoinPb, deriveFmapPb, derivePipelineB
+                                     bidirectional inner channels / stage results (F94, F95): identical skeletons
+  deriveFmapA, deriveDupA, deriveJoinCCe, deriveJoinSCe, deriveJoinV2e, deriveFmapPe, derivePipelineE
+                                     the same systems over INTERFACE-typed streams (interface{} / error): identical skeletons;
+                                     the item alphabet of the LTSs is Nat, items 0 / 1 stand for the nil interface value / a typed-nil pointer
 -/
 import GoderiveModel.Generated.ConcFacts
 
@@ -36,23 +42,41 @@ def expectedSkeletons : List (String × String) := [
    "(func (f0 f1 f2) (def (errChan) (make-chan 0)) (var v0) (go (var v0err) (set (v0 v0err) (f0)) (send errChan v0err)) (var v1) (go (var v1err) (set (v1 v1err) (f1)) (send errChan v1err)) (var v2) (go (var v2err) (set (v2 v2err) (f2)) (send errChan v2err)) (var err) (for ((def (i) 0)) ((< i 3)) ((++ i)) (def (errc) (recv errChan)) (if (!= errc nil) (then (if (== err nil) (then (set (err) errc)))))) (return v0 v1 v2 err))"),
   ("deriveDo4",
    "(func (f0 f1 f2 f3) (def (errChan) (make-chan 0)) (var v0) (go (var v0err) (set (v0 v0err) (f0)) (send errChan v0err)) (var v1) (go (var v1err) (set (v1 v1err) (f1)) (send errChan v1err)) (var v2) (go (var v2err) (set (v2 v2err) (f2)) (send errChan v2err)) (var v3) (go (var v3err) (set (v3 v3err) (f3)) (send errChan v3err)) (var err) (for ((def (i) 0)) ((< i 4)) ((++ i)) (def (errc) (recv errChan)) (if (!= errc nil) (then (if (== err nil) (then (set (err) errc)))))) (return v0 v1 v2 v3 err))"),
+  ("deriveDupA",
+   "(func (c) (def (cc1 cc2) (make-chan (cap c)) (make-chan (cap c))) (go (range-chan (v) c (send cc1 v) (send cc2 v)) (close cc1) (close cc2)) (return cc1 cc2))"),
   ("deriveDupB",
    "(func (c) (def (cc1 cc2) (make-chan (cap c)) (make-chan (cap c))) (go (range-chan (v) c (send cc1 v) (send cc2 v)) (close cc1) (close cc2)) (return cc1 cc2))"),
   ("deriveDupR",
    "(func (c) (def (cc1 cc2) (make-chan (cap c)) (make-chan (cap c))) (go (range-chan (v) c (send cc1 v) (send cc2 v)) (close cc1) (close cc2)) (return cc1 cc2))"),
   ("deriveFmap",
    "(func (f in) (def (out) (make-chan (cap in))) (go (range-chan (a) in (def (b) (f a)) (send out b)) (close out)) (return out))"),
+  ("deriveFmapA",
+   "(func (f in) (def (out) (make-chan (cap in))) (go (range-chan (a) in (def (b) (f a)) (send out b)) (close out)) (return out))"),
   ("deriveFmapC",
+   "(func (f in) (def (out) (make-chan (cap in))) (go (range-chan (a) in (def (b) (f a)) (send out b)) (close out)) (return out))"),
+  ("deriveFmapPb",
+   "(func (f in) (def (out) (make-chan (cap in))) (go (range-chan (a) in (def (b) (f a)) (send out b)) (close out)) (return out))"),
+  ("deriveFmapPe",
    "(func (f in) (def (out) (make-chan (cap in))) (go (range-chan (a) in (def (b) (f a)) (send out b)) (close out)) (return out))"),
   ("deriveJoinCC",
    "(func (in) (def (out) (make-chan 0)) (go (def (wait) (lit sync.WaitGroup)) (def (listening) (make-other)) (range-chan (c) in (if (index listening c) (then (continue))) (set ((index listening c)) true) (wait.Add 1) (def (res) c) (go (range-chan (r) res (send out r)) (wait.Done))) (wait.Wait) (close out)) (return out))"),
   ("deriveJoinCCb",
    "(func (in) (def (out) (make-chan 0)) (go (def (wait) (lit sync.WaitGroup)) (def (listening) (make-other)) (range-chan (c) in (if (index listening c) (then (continue))) (set ((index listening c)) true) (wait.Add 1) (def (res) c) (go (range-chan (r) res (send out r)) (wait.Done))) (wait.Wait) (close out)) (return out))"),
+  ("deriveJoinCCbb",
+   "(func (in) (def (out) (make-chan 0)) (go (def (wait) (lit sync.WaitGroup)) (def (listening) (make-other)) (range-chan (c) in (if (index listening c) (then (continue))) (set ((index listening c)) true) (wait.Add 1) (def (res) c) (go (range-chan (r) res (send out r)) (wait.Done))) (wait.Wait) (close out)) (return out))"),
+  ("deriveJoinCCe",
+   "(func (in) (def (out) (make-chan 0)) (go (def (wait) (lit sync.WaitGroup)) (def (listening) (make-other)) (range-chan (c) in (if (index listening c) (then (continue))) (set ((index listening c)) true) (wait.Add 1) (def (res) c) (go (range-chan (r) res (send out r)) (wait.Done))) (wait.Wait) (close out)) (return out))"),
+  ("deriveJoinPb",
+   "(func (in) (def (out) (make-chan 0)) (go (def (wait) (lit sync.WaitGroup)) (def (listening) (make-other)) (range-chan (c) in (if (index listening c) (then (continue))) (set ((index listening c)) true) (wait.Add 1) (def (res) c) (go (range-chan (r) res (send out r)) (wait.Done))) (wait.Wait) (close out)) (return out))"),
   ("deriveJoinSC",
-   "(func (in) (def (out) (make-chan 0)) (go (def (wait) (lit sync.WaitGroup)) (def (listening) (make-other (len in))) (range-slice (_ c) in (if (index listening c) (then (continue))) (set ((index listening c)) true) (wait.Add 1) (def (res) c) (go (range-chan (r) res (send out r)) (wait.Done))) (wait.Wait) (close out)) (return out))"),
+   "(func (in) (def (out) (make-chan 0)) (def (wait) (& (lit sync.WaitGroup))) (def (listening) (make-other (len in))) (range-slice (_ c) in (if (index listening c) (then (continue))) (set ((index listening c)) true) (wait.Add 1) (def (res) c) (go (range-chan (r) res (send out r)) (wait.Done))) (go (wait.Wait) (close out)) (return out))"),
   ("deriveJoinSCb",
-   "(func (in) (def (out) (make-chan 0)) (go (def (wait) (lit sync.WaitGroup)) (def (listening) (make-other (len in))) (range-slice (_ c) in (if (index listening c) (then (continue))) (set ((index listening c)) true) (wait.Add 1) (def (res) c) (go (range-chan (r) res (send out r)) (wait.Done))) (wait.Wait) (close out)) (return out))"),
+   "(func (in) (def (out) (make-chan 0)) (def (wait) (& (lit sync.WaitGroup))) (def (listening) (make-other (len in))) (range-slice (_ c) in (if (index listening c) (then (continue))) (set ((index listening c)) true) (wait.Add 1) (def (res) c) (go (range-chan (r) res (send out r)) (wait.Done))) (go (wait.Wait) (close out)) (return out))"),
+  ("deriveJoinSCe",
+   "(func (in) (def (out) (make-chan 0)) (def (wait) (& (lit sync.WaitGroup))) (def (listening) (make-other (len in))) (range-slice (_ c) in (if (index listening c) (then (continue))) (set ((index listening c)) true) (wait.Add 1) (def (res) c) (go (range-chan (r) res (send out r)) (wait.Done))) (go (wait.Wait) (close out)) (return out))"),
   ("deriveJoinV2",
+   "(func (c0 c1) (def (out) (make-chan 0)) (go (for () ((|| (!= c0 nil) (!= c1 nil))) () (select (case (def (v0 ok0) (recv c0)) (if (! ok0) (then (set (c0) nil)) (else (send out v0)))) (case (def (v1 ok1) (recv c1)) (if (! ok1) (then (set (c1) nil)) (else (send out v1)))))) (close out)) (return out))"),
+  ("deriveJoinV2e",
    "(func (c0 c1) (def (out) (make-chan 0)) (go (for () ((|| (!= c0 nil) (!= c1 nil))) () (select (case (def (v0 ok0) (recv c0)) (if (! ok0) (then (set (c0) nil)) (else (send out v0)))) (case (def (v1 ok1) (recv c1)) (if (! ok1) (then (set (c1) nil)) (else (send out v1)))))) (close out)) (return out))"),
   ("deriveJoinV3",
    "(func (c0 c1 c2) (def (out) (make-chan 0)) (go (for () ((|| (|| (!= c0 nil) (!= c1 nil)) (!= c2 nil))) () (select (case (def (v0 ok0) (recv c0)) (if (! ok0) (then (set (c0) nil)) (else (send out v0)))) (case (def (v1 ok1) (recv c1)) (if (! ok1) (then (set (c1) nil)) (else (send out v1)))) (case (def (v2 ok2) (recv c2)) (if (! ok2) (then (set (c2) nil)) (else (send out v2)))))) (close out)) (return out))"),
@@ -60,6 +84,10 @@ def expectedSkeletons : List (String × String) := [
    "(func (c0 c1 c2 c3 c4) (def (out) (make-chan 0)) (go (for () ((|| (|| (|| (|| (!= c0 nil) (!= c1 nil)) (!= c2 nil)) (!= c3 nil)) (!= c4 nil))) () (select (case (def (v0 ok0) (recv c0)) (if (! ok0) (then (set (c0) nil)) (else (send out v0)))) (case (def (v1 ok1) (recv c1)) (if (! ok1) (then (set (c1) nil)) (else (send out v1)))) (case (def (v2 ok2) (recv c2)) (if (! ok2) (then (set (c2) nil)) (else (send out v2)))) (case (def (v3 ok3) (recv c3)) (if (! ok3) (then (set (c3) nil)) (else (send out v3)))) (case (def (v4 ok4) (recv c4)) (if (! ok4) (then (set (c4) nil)) (else (send out v4)))))) (close out)) (return out))"),
   ("deriveJoinV6",
    "(func (c0 c1 c2 c3 c4 c5) (def (out) (make-chan 0)) (go (for () ((|| (|| (|| (|| (|| (!= c0 nil) (!= c1 nil)) (!= c2 nil)) (!= c3 nil)) (!= c4 nil)) (!= c5 nil))) () (select (case (def (v0 ok0) (recv c0)) (if (! ok0) (then (set (c0) nil)) (else (send out v0)))) (case (def (v1 ok1) (recv c1)) (if (! ok1) (then (set (c1) nil)) (else (send out v1)))) (case (def (v2 ok2) (recv c2)) (if (! ok2) (then (set (c2) nil)) (else (send out v2)))) (case (def (v3 ok3) (recv c3)) (if (! ok3) (then (set (c3) nil)) (else (send out v3)))) (case (def (v4 ok4) (recv c4)) (if (! ok4) (then (set (c4) nil)) (else (send out v4)))) (case (def (v5 ok5) (recv c5)) (if (! ok5) (then (set (c5) nil)) (else (send out v5)))))) (close out)) (return out))"),
+  ("derivePipelineB",
+   "(func (f g) (return (lambda (a) (def (b) (f a)) (return (deriveJoinPb (deriveFmapPb g b))))))"),
+  ("derivePipelineE",
+   "(func (f g) (return (lambda (a) (def (b) (f a)) (return (deriveJoinCCe (deriveFmapPe g b))))))"),
   ("derivePipelineP",
    "(func (f g) (return (lambda (a) (def (b) (f a)) (return (deriveJoinCC (deriveFmap g b))))))")
 ]
